@@ -500,7 +500,7 @@ func permuteEx(exs []filesystem.Extractor, p []int) []filesystem.Extractor {
 
 func main() {
 	scankit.Quiet()
-	r := ev.Start("C08", "exploration", 3*time.Minute, 30*time.Minute)
+	r := ev.Start("C08", "exploration", 5*time.Minute, 30*time.Minute)
 	maxNodes := ev.Pick(r, 5, 6)
 	// 10 of the 120 orders of the 5 extractors: every rotation of the canonical order and of its
 	// reverse, so that every pair of extractors occurs in both relative orders and every
